@@ -45,7 +45,7 @@ RULE = (
 UNARY_CONSTRAINTS = [None, None, None, "to_output_scale", "to_grad_input_scale", "gmean", "hmean", "amean"]
 TERNARY_CONSTRAINTS = [None, None, None, "to_output_scale", "to_left_grad_scale", "to_right_grad_scale", "gmean", "hmean",
                        "amean"]
-ATOMS = ["gelu", "silu", "softmax", "dropout", "layer_norm", "rms_norm", "linear", "linear_readout", "matmul",
+ATOMS = ["gelu", "silu", "softmax", "masked_softmax", "dropout", "layer_norm", "rms_norm", "linear", "linear_readout", "matmul",
          "add", "add_scalar", "add_bcast", "add_mutual", "residual", "silu_glu", "sdpa", "conv1d", "scale", "graph_break"]
 MODULES = ["Linear", "MLP", "MHSA", "TransformerLayer", "LayerNorm", "RMSNorm", "GELU", "SiLU", "Softmax",
            "LinearReadout", "DepthSequential", "Embedding", "Conv1d", "Dropout", "TransformerDecoder", "CrossEntropyLoss",
@@ -76,7 +76,7 @@ def phases(tier: str) -> List[Dict[str, Any]]:
 def _gen_atom(r: Any, first: bool) -> Dict[str, Any]:
     k = r.choice(ATOMS)
     a: Dict[str, Any] = {"atom": k}
-    if k in ("gelu", "silu", "softmax"):
+    if k in ("gelu", "silu", "softmax", "masked_softmax"):
         a["mult"] = r.choice([1.0, 1.0, 0.25, 4.0, 1, 2])  # ints too: the library branches on `mult == 1`
         a["constraint"] = r.choice(UNARY_CONSTRAINTS)
         if k == "gelu":
@@ -395,6 +395,11 @@ def build(plan: Dict[str, Any]) -> Built:
             elif k == "silu":
                 x = U.silu(x, mult=a["mult"], constraint=a["constraint"])
             elif k == "softmax":
+                x = U.softmax(x, dim=-1, constraint=a["constraint"], mult=a["mult"])
+            elif k == "masked_softmax":
+                # -inf where masked (never the first position of a row): finite in eager
+                keep0 = torch.arange(x.shape[-1], device=x.device) == 0
+                x = x.masked_fill((x < 0) & ~keep0, float("-inf"))
                 x = U.softmax(x, dim=-1, constraint=a["constraint"], mult=a["mult"])
             elif k == "dropout":
                 x = U.dropout(x, p=0.0, training=True)
